@@ -116,7 +116,16 @@ fn check_triangle(ctx: &mut Ctx, v: [Point; 3]) -> FastSet<(i32, i32)> {
     }
     // (e) a one-pixel outline consists of the three edge lines (either direction of each edge)
     ctx.eval();
-    let outline: FastSet<(i32, i32)> = t.into_styled(PrimitiveStyle::with_stroke(BinaryColor::On, 1)).pixels().take(budget * 3 + 64).map(|p| (p.0.x, p.0.y)).collect();
+    // (a 1 px stroke has no inside or outside part to distribute: the statement holds for every
+    // stroke alignment; the alignment varies with the case)
+    let outline_align = (tv[0].0 + 2 * tv[1].0 + 3 * tv[2].1 + tv[0].1).rem_euclid(4);
+    let outline_style = match outline_align {
+        0 => PrimitiveStyle::with_stroke(BinaryColor::On, 1),
+        1 => embedded_graphics::primitives::PrimitiveStyleBuilder::new().stroke_color(BinaryColor::On).stroke_width(1).stroke_alignment(embedded_graphics::primitives::StrokeAlignment::Inside).build(),
+        2 => embedded_graphics::primitives::PrimitiveStyleBuilder::new().stroke_color(BinaryColor::On).stroke_width(1).stroke_alignment(embedded_graphics::primitives::StrokeAlignment::Outside).build(),
+        _ => embedded_graphics::primitives::PrimitiveStyleBuilder::new().stroke_color(BinaryColor::On).stroke_width(1).stroke_alignment(embedded_graphics::primitives::StrokeAlignment::Center).build(),
+    };
+    let outline: FastSet<(i32, i32)> = t.into_styled(outline_style).pixels().take(budget * 3 + 64).map(|p| (p.0.x, p.0.y)).collect();
     let edges = [(v[0], v[1]), (v[1], v[2]), (v[2], v[0])];
     let mut ok = false;
     for combo in 0..8 {
@@ -131,7 +140,7 @@ fn check_triangle(ctx: &mut Ctx, v: [Point; 3]) -> FastSet<(i32, i32)> {
         }
     }
     if !ok {
-        ctx.violation("triangle|1px-outline-is-not-the-three-edge-lines", case, || format!("outline has {} pixels", outline.len()));
+        ctx.violation("triangle|1px-outline-is-not-the-three-edge-lines", || format!("{} stroke alignment {}", case(), ["Center (with_stroke)", "Inside", "Outside", "Center"][outline_align as usize]), || format!("outline has {} pixels", outline.len()));
     }
     // (f) what draw() leaves on a target is the same coverage: on an unbounded target, and on
     // bounded targets at non-zero origins whose edges coincide with or cut through the triangle
@@ -139,7 +148,7 @@ fn check_triangle(ctx: &mut Ctx, v: [Point; 3]) -> FastSet<(i32, i32)> {
     if (tv[0].0 + 3 * tv[1].1 + 5 * tv[2].0).rem_euclid(4) == 0 {
         use egmon::target::{cut_boxes, restrict, unbounded_box, IterTarget, NativeTarget, PixMap};
         ctx.eval();
-        for (what, want_set, style) in [("filled", &set, PrimitiveStyle::with_fill(BinaryColor::On)), ("1px-outline", &outline, PrimitiveStyle::with_stroke(BinaryColor::On, 1))] {
+        for (what, want_set, style) in [("filled", &set, PrimitiveStyle::with_fill(BinaryColor::On)), ("1px-outline", &outline, outline_style)] {
             let mut want = PixMap::new();
             for &(x, y) in want_set.iter() {
                 want.set(x, y, 1);
